@@ -62,6 +62,23 @@ def _fork_parallel(self, false_probability, desc=''):
 StateSpace.fork_parallel = _fork_parallel
 
 
+# repair of CrossHair's str model: comparing a symbolic str with a non-str must
+# return NotImplemented (so that the reflected method of the other operand,
+# e.g. petl's Comparable.__gt__, is tried) instead of raising TypeError.
+from crosshair.libimpl import builtinslib as _bl  # noqa: E402
+
+_orig_str_cmp_op = _bl.AnySymbolicStr._cmp_op
+
+
+def _str_cmp_op(self, other, op):
+    if not isinstance(other, str):
+        return NotImplemented
+    return _orig_str_cmp_op(self, other, op)
+
+
+_bl.AnySymbolicStr._cmp_op = _str_cmp_op
+
+
 # --------------------------------------------------------------------------
 
 class SymbolicSym(SymBase):
@@ -84,6 +101,9 @@ class SymbolicSym(SymBase):
 
     def _str(self, name):
         return self._mk(str, name)
+
+    def _float(self, name):
+        return self._mk(float, name)
 
     def concretize(self, x):
         return deep_realize(x)
@@ -112,7 +132,7 @@ def _run_symbolic(fn, sym, params):
 
 
 def _jsonable(v):
-    if isinstance(v, bool) or v is None or isinstance(v, (int, str)):
+    if isinstance(v, bool) or v is None or isinstance(v, (int, str, float)):
         return v
     raise TypeError('non-JSON model value %r' % (v,))
 
